@@ -605,6 +605,9 @@ def _discharge(ob, findings, prop, tier):
     for k in ('solver_s', 'decisions', 'feas_queries', 'feas_unknown'):
         res[k] = stats[k]
     res['aborted'] = stats['aborted']
+    for t_ in sorted(set(stats.get('truncated', []))):
+        res['inconclusive'].append(f'{ob.oid}: {t_}')
+        res['unknown'] += 1
     res['wall_s'] = time.time() - t_start
     return res
 
